@@ -57,6 +57,7 @@ func theWorld() *dyn.World {
 			dyn.MethodSpec{Name: "Echo", In: ".un.All", Out: ".un.All", Rule: post("/c13/echo", "*")},
 			dyn.MethodSpec{Name: "Bidi", In: ".un.All", Out: ".un.All", ClientStream: true, ServerStream: true, Rule: post("/c13/bidi", "*")},
 			dyn.MethodSpec{Name: "Raw", In: ".google.api.HttpBody", Out: ".google.api.HttpBody", Rule: post("/c13/raw", "*")},
+			dyn.MethodSpec{Name: "Asset", In: ".un.All", Out: ".google.api.HttpBody", Rule: &annotations.HttpRule{Pattern: &annotations.HttpRule_Get{Get: "/c13/asset/{f_int32}"}}},
 		))
 	})
 	return world
@@ -104,6 +105,13 @@ func verify(m protoreflect.Message) (id, seq int, err error) {
 	return id, seq, nil
 }
 
+// assetSizes are the sizes of the blobs the Asset method serves from memory
+// that outlives the call (a static file, a cache entry): larking may read
+// them, it must never write to them or hand them to a pool.
+var assetSizes = []int{100, 1000, 3000}
+
+func pristineAsset(k int) []byte { return filler(9000+k, 0, assetSizes[k]) }
+
 // ---------------------------------------------------------------------------
 // (a) harness-owned interleavings
 
@@ -138,6 +146,8 @@ func encodeCall(w *dyn.World, id int, cs CallSpec) (*http.Request, error) {
 	hdr := http.Header{}
 	gz := strings.HasSuffix(cs.Transport, "-gzip")
 	switch {
+	case cs.Transport == "asset":
+		return drive.Request("GET", fmt.Sprintf("/c13/asset/%d", cs.Sizes[0]%len(assetSizes)), "", hdr, nil, 0), nil
 	case strings.HasPrefix(cs.Transport, "grpc"):
 		for seq, sz := range cs.Sizes {
 			b, _ := proto.Marshal(payload(w, id, seq, sz))
@@ -315,7 +325,15 @@ func CheckInterleave(c ICase) ([]evid.Violation, bool) {
 	if err != nil {
 		panic(err)
 	}
-	if err := mux.VerifRegisterService(w.ServiceDesc("un.C13", nil, stream), nil); err != nil {
+	assets := make([][]byte, len(assetSizes))
+	for k := range assets {
+		assets[k] = pristineAsset(k)
+	}
+	unary := func(ctx context.Context, fm string, req *dynamicpb.Message) (proto.Message, error) {
+		k := int(req.Get(req.Descriptor().Fields().ByName("f_int32")).Int()) % len(assets)
+		return &httpbody.HttpBody{ContentType: "application/octet-stream", Data: assets[k]}, nil
+	}
+	if err := mux.VerifRegisterService(w.ServiceDesc("un.C13", unary, stream), nil); err != nil {
 		panic(err)
 	}
 	results := make([]drive.Result, len(c.Calls))
@@ -390,10 +408,22 @@ func CheckInterleave(c ICase) ([]evid.Violation, bool) {
 	if len(herrs) > 0 {
 		return fail("isolation", "received-message-corrupted", "%s", herrs[0])
 	}
+	for k := range assets {
+		if !bytes.Equal(assets[k], pristineAsset(k)) {
+			return fail("isolation", "handler-memory-overwritten", "the %d-byte blob the Asset handler serves from its own memory was overwritten while other requests ran", len(assets[k]))
+		}
+	}
 	for id, cs := range c.Calls {
 		res := results[id]
 		if res.Panic != nil {
 			return fail("panic", res.PanicSig(), "call %d panicked: %v", id, res.Panic)
+		}
+		if cs.Transport == "asset" {
+			k := cs.Sizes[0] % len(assetSizes)
+			if res.Rec.Code != 200 || !bytes.Equal(res.Rec.Body.Bytes(), pristineAsset(k)) {
+				return fail("isolation", "asset-response-differs", "call %d: download of asset %d answered %d with %d bytes that are not the asset (%q...)", id, k, res.Rec.Code, res.Rec.Body.Len(), trunc(res.Rec.Body.Bytes()))
+			}
+			continue
 		}
 		over := false
 		for _, sz := range cs.Sizes {
@@ -450,6 +480,11 @@ func TestPropInterleave(t *testing.T) {
 		pooled := false
 		for i := 0; i < k; i++ {
 			cs := CallSpec{Transport: rapid.SampledFrom(transports).Draw(t, "transport")}
+			if rapid.IntRange(0, 5).Draw(t, "asset") == 0 {
+				cs = CallSpec{Transport: "asset", Sizes: []int{rapid.IntRange(0, len(assetSizes)-1).Draw(t, "assetK")}}
+				c.Calls = append(c.Calls, cs)
+				continue
+			}
 			n := rapid.IntRange(1, 4).Draw(t, "n")
 			for j := 0; j < n; j++ {
 				sz := rapid.SampledFrom([]int{0, 1, 10, 20, 25, 63, 64, 65, 100, 1000, 1024, 1100, 1150, 1990, 2000, 2040, 5000}).Draw(t, "size")
